@@ -25,6 +25,8 @@
 //!       followed by ` cx=<5 raw pre-context slots>/<5 raw post-context slots>` (hex)
 //!
 //!   lcrand <fontpath[@index]> <n> -> <initial random_state> <first n values of random_number()>
+//!   lcrand <fontpath[@index]> <n> <text> [<text> …] -> the same for an apply context created on a public buffer that
+//!       shaped the texts before (recycled with clear() after each; text = hexcp[*count],… , prefix `p:` = with a plan)
 //!
 //!   shapemt <fontid> <threads> <iters> <mode shape|plan> <dir> <script> <lang> <flags> <level> <feats> <text> <text> …
 //!       (dir and script explicit; text = hexcp[*count],… )  sequential run first, then `threads` threads
@@ -817,9 +819,34 @@ pub fn handle(toks: &[&str], st: &mut State) -> Option<String> {
         "lcrand" => {
             // lcrand <fontpath[@index]> <n> -> initial random_state and the first n random numbers of a fresh
             // GSUB apply context (hook verif::gsubgpos::random_sequence)
+            // lcrand <font> <n> <text> [<text> …]  (text = hexcp[*count],… ; prefix `p:` = shape_with_plan) -> the same for
+            // an apply context created on ONE public buffer that has shaped the texts before, recycled with
+            // GlyphBuffer::clear() after each (hook verif::gsubgpos::random_sequence_on)
             let face = load_font(st, toks.get(1)?)?;
             let n: usize = toks.get(2)?.parse().ok()?;
-            let v = rustybuzz::verif::gsubgpos::random_sequence(&face, n);
+            let v = if toks.len() > 3 {
+                let mut u = UnicodeBuffer::new();
+                for t in &toks[3..] {
+                    let (with_plan, text) = match t.strip_prefix("p:") {
+                        Some(x) => (true, x),
+                        None => (false, *t),
+                    };
+                    for (i, ch) in rle_text(text)?.iter().enumerate() {
+                        u.add(*ch, i as u32);
+                    }
+                    let g = if with_plan {
+                        u.guess_segment_properties();
+                        let plan = ShapePlan::new(&face, u.direction(), Some(u.script()), u.language().as_ref(), &[]);
+                        rustybuzz::shape_with_plan(&face, &plan, u)
+                    } else {
+                        rustybuzz::shape(&face, &[], u)
+                    };
+                    u = g.clear();
+                }
+                rustybuzz::verif::gsubgpos::random_sequence_on(&face, &mut u, n)
+            } else {
+                rustybuzz::verif::gsubgpos::random_sequence(&face, n)
+            };
             Some(v.iter().map(|x| x.to_string()).collect::<Vec<_>>().join(" "))
         }
         "shapemt" => shapemt(toks, st),
